@@ -472,4 +472,41 @@ theorem no_cors_is_the_router (s : Server) (hc : s.cors = false) (m p : String) 
 example : (newServer [.cors]).cors = true ∧ (newServer [.cors]).router.notAllowed = some corsNA ∧
     (newServer [.cors, .router]).cors = false ∧ (newServer [.cors, .notAllowed (some 8)]).router.notAllowed = some 8 := by decide
 
+/-! ### everything together -/
+
+/-- **rest.Server end to end through its real entry points, for the whole configuration space.**  `NewServer` /
+`MustNewServer` with ANY list of run options (`WithNotFoundHandler`, `WithNotAllowedHandler`, `WithRouter`, `WithChain`,
+`WithCors`, any number, any order), ANY groups with any route options, `Start()` (nested binding loops), then ANY
+request to `server.router.ServeHTTP`: either the CORS middleware answers it — exactly when `WithCors` is in effect and
+the method is `OPTIONS` — or the patRouter answers and the monitor (hence the declarative matcher, over the routes the
+registration rule accepted before its first rejection) accepts the answer. -/
+theorem server_start_serve_is_declarative_matcher (opts : List RunOpt) (groups : List Group) (m p : String) :
+    let s := groups.foldl Server.addRoutes (mustNewServer opts)
+    let tbl := (bindTable [] s.regs).1
+    match s.start.1.serveHTTP m p with
+    | .preflight => s.start.1.cors = true ∧ m = "OPTIONS"
+    | .router resp =>
+      resp = s.start.1.router.serveHTTP m p ∧
+      monitorObs tbl (oneVarPerPosition tbl) (customOf s.start.1.router) m
+        (if rooted p then some (cleanToks p) else none) (obsOf resp) = .ok := by
+  intro s tbl
+  obtain ⟨_, _, _, h4⟩ := server_is_declarative_matcher opts groups m p
+  have e1 := (start_is_bindRoutes s).1
+  have h4' : monitorObs tbl (oneVarPerPosition tbl) (customOf s.bindRoutes.1.router) m
+      (if rooted p then some (cleanToks p) else none) (obsOf (s.bindRoutes.1.router.serveHTTP m p)) = .ok := h4
+  rw [← e1] at h4'
+  unfold Server.serveHTTP
+  by_cases hc : (s.start.1.cors && m == "OPTIONS") = true
+  · rw [if_pos hc]
+    simp only [Bool.and_eq_true, beq_iff_eq] at hc
+    exact hc
+  · rw [if_neg hc]
+    exact ⟨rfl, h4'⟩
+
+-- non-vacuity: WithCors + an OPTIONS route: the preflight branch; a GET route: the router branch
+example : ((([({ routes := [("OPTIONS", "/a", some 1), ("GET", "/a", some 2)] } : Group)].foldl Server.addRoutes
+    (mustNewServer [.cors])).start.1.serveHTTP "OPTIONS" "/a") = .preflight) ∧
+    ((([({ routes := [("OPTIONS", "/a", some 1), ("GET", "/a", some 2)] } : Group)].foldl Server.addRoutes
+    (mustNewServer [.cors])).start.1.serveHTTP "GET" "/a") = .router (.route 2 [])) := by decide +kernel
+
 end GoZero.C09
